@@ -7,8 +7,11 @@ MCCleanOf(f) == "fxclean:" \o f
 \* nested: f_nest (parent + child, fine), f_nestbad (the CHILD's setUp fails), f_nestcr (the child's cleanUp raises)
 \* fixtures: f_ok (detail "fxd"), f_tb (detail named "traceback": collides with generated names),
 \*           f_bad (setUp fails after adding detail "fxd"), f_cr (cleanUp raises an error)
-MCFixtureSetUpFails(f) == f \in {"f_bad", "f_nestbad"}
-MCFixtureFailCount(f) == IF f = "f_nestbad" THEN 3 ELSE 2
+MCFixtureSetUpFails(f) == f \in {"f_bad", "f_nestbad", "f_classic"}
+\* f_classic: a classic fixture (overrides setUp) that attaches a detail and is then interrupted by KeyboardInterrupt
+MCFixtureFailKinds(f) == CASE f = "f_nestbad" -> <<"err", "err", "err">>
+                           [] f = "f_classic" -> <<"ki">>
+                           [] OTHER -> <<"err", "err">>
 MCFixtureGatherRaises(f) == f = "f_gr"
 MCFixtureCleanKind(f) == IF f \in {"f_cr", "f_nestcr"} THEN "err" ELSE None
 MCFixtureDetails(f) == CASE f = "f_tb" -> {Name("traceback", 0)}
